@@ -30,7 +30,7 @@ ASSUMPTIONS = ['the provider is a parameter: knows(k) iff Timezone.from_tzid(k, 
 
 FIRST, LAST = date(2019, 1, 1), date(2022, 1, 1)
 KNOWN_IDS = T.ZONES + ['UTC', '/Europe/Berlin', 'Europe/London']
-UNKNOWN_IDS = ['Custom/Zone', 'X/Unknown', 'Europe', 'Not A Zone']
+UNKNOWN_IDS = ['Custom/Zone', 'X/Unknown', 'Europe', 'Not A Zone', '', '0']        # an empty or odd value is still the value of the parameter
 ALL_IDS = KNOWN_IDS + UNKNOWN_IDS
 
 _KNOWS = {}
